@@ -30,6 +30,17 @@ theorem mem_zipIdx_map {α β} (l : List α) (g : α × Nat → β) (y : β) :
   · rintro ⟨k, h, rfl⟩
     exact ⟨(l[k], k), List.mem_zipIdx_iff_getElem?.mpr (List.getElem?_eq_getElem h), rfl⟩
 
+theorem inBounds_single (a b : Rat) (y : Vec) : InBounds [a] [b] y ↔ a ≤ y 0 ∧ y 0 ≤ b := by
+  unfold InBounds
+  constructor
+  · intro h
+    have := h 0 (by simp)
+    simpa using this
+  · intro h j hj
+    have hj0 : j = 0 := by simpa using hj
+    subst hj0
+    simpa using h
+
 /-! ### rows -/
 
 /-- a base row with its right-hand side multiplied by `k` -/
@@ -55,6 +66,10 @@ theorem scaleRow_sat (nrm : Rat) (sc : Nat) (r : Row) (x : Vec) :
   have hr2 : (scaleRhs (x sc / nrm) r).rhs = r.rhs * (x sc / nrm) := rfl
   rw [hk1, hk2, hr1, hr2, Rat.div_def, Rat.div_def]
   cases r.kind <;> simp only [] <;> constructor <;> intro h <;> grind
+
+theorem rows_forall_map_scaleRow (nrm : Rat) (sc : Nat) (rows : List Row) (P : Row → Prop) :
+    (∀ r ∈ rows.map (scaleRow nrm sc), P r) ↔ ∀ r ∈ rows, P (scaleRow nrm sc r) := by
+  simp [List.forall_mem_map]
 
 theorem tieRow_eval (nrm : Rat) (sc : Nat) (kind : RowKind) (k : Nat) (b : Rat) (x : Vec) :
     (tieRow nrm sc kind k b).eval x = x k - b * (x sc / nrm) := by
